@@ -2,6 +2,8 @@
 import gen
 import progcases
 
+TWINS = ['pred']      # harness/twins.py: which part of a twin text carries the difference
+
 N = {"quick": 700, "thorough": 20000}
 LEAN_MODULE = "Pyab.Properties.C02_full"
 
